@@ -2606,6 +2606,18 @@ hsStateDetermined:
         if ((uint32) (end - c) < hsLen)
         {
 #endif
+#ifdef USE_DTLS
+            if (ACTV_VER(ssl, v_dtls_any))
+            {
+                /* A DTLS fragment (or unfragmented message) carries its own
+                   length: a body shorter than that is malformed. It must
+                   not start the stream style reassembly below, which
+                   shares fragMessage/fragTotal with the DTLS one above. */
+                ssl->err = SSL_ALERT_DECODE_ERROR;
+                psTraceErrr("Truncated DTLS handshake message\n");
+                return MATRIXSSL_ERROR;
+            }
+#endif /* USE_DTLS */
             /* Support for fragmented handshake messages - non-DTLS */
             if (ssl->fragMessage == NULL)
             {
